@@ -15,7 +15,7 @@ RULE = ('Hypothesis draws message (body class incl. empty/block-boundary/binary/
         'encryptor (SKESK with/without encrypted session key, salted/iterated S2K, PKESK RSA/ECDH, SEIPD or tag-9 container, old/new/'
         'partial inner headers) and PGPy decrypts. Non-trivial: >=2 recipients, or non-default cipher/compression, or body > one '
         'cipher block, or foreign-produced; distinct by (direction, cipher, recipient kinds, compression, body class).')
-RULE += ' Text under format t in a declared character set (cp1252, koi8-r, latin-1) must read back as given when the transport is armored. Backward messages may carry a further PKESK for a recipient of an unknown public-key algorithm. Messages of the cleartext framework are encrypted too (refusal or the same text). Backward cases include an SKESK whose own cipher differs (also in key size) from the data cipher. Inner packets also with old-format indeterminate lengths; ECDH session keys padded to 40/48 octets (RFC 6637 8); RSA recipients whose modulus length is not a multiple of 8 bits; messages exported before being signed; the export of the decrypted message must be a grammar-conformant message (no MDC leftovers).'
+RULE += ' Backward PKESK packets may leave the key id zero (hidden recipient); RSA recipients also under algorithm id 2. Text under format t in a declared character set (cp1252, koi8-r, latin-1) must read back as given when the transport is armored. Backward messages may carry a further PKESK for a recipient of an unknown public-key algorithm. Messages of the cleartext framework are encrypted too (refusal or the same text). Backward cases include an SKESK whose own cipher differs (also in key size) from the data cipher. Inner packets also with old-format indeterminate lengths; ECDH session keys padded to 40/48 octets (RFC 6637 8); RSA recipients whose modulus length is not a multiple of 8 bits; messages exported before being signed; the export of the decrypted message must be a grammar-conformant message (no MDC leftovers).'
 ASSUMPTIONS = ['refpgp.enc is an independent RFC 4880 5.1/5.3/5.13/13.9 + RFC 6637 + RFC 3394 implementation sharing only block ciphers, '
                'RSA/ECDH primitives and hashlib with PGPy', 'a supplied session key has exactly the cipher key size (documented precondition)',
                'literal time compared at the wire resolution of one second']
@@ -36,6 +36,7 @@ def case_strategy(tier):
             'esk': st.booleans(),
             'skc': st.integers(0, 5),
             'foreign': st.sampled_from([None, None, None, 100, 110, 25, 21, 28]),
+            'anon': st.sampled_from([False, False, False, True]),
             's2k': st.sampled_from(['iterated', 'salted', 'iterated']),
             'count': st.integers(0, 120),
             'hdr': st.sampled_from(['new', 'old', 'partial', 'new5', 'indeterminate']),
@@ -205,7 +206,11 @@ def eval_backward(case, rec):
     for r in recips:
         if r['t'] == 'key':
             # ECDH: RFC 6637 section 8 lets the sender pad beyond the next multiple of 8 (GnuPG pads to 40 octets)
-            esks += wire.build_packet(1, enc.pkesk_build(keypool.ref_public(r['kid']), cipher, session, pad_to=[None, 40, 48, None][b.get('skc', 0) % 4]))
+            # 'anon': the key id is left zero (RFC 4880 5.1 "hidden recipient", gpg --throw-keyids): the receiver tries its keys
+            esks += wire.build_packet(1, enc.pkesk_build(keypool.ref_public(r['kid']), cipher, session, pad_to=[None, 40, 48, None][b.get('skc', 0) % 4],
+                                                         keyid=bytes(8) if b.get('anon') else None))
+            if b.get('anon'):
+                rec.note('bwd/hidden-recipient')
         else:
             spec_ = rs2k.Spec(b['s2k'], r['h'], b'\x01\x02\x03\x04\x05\x06\x07\x08', b['count'] if b['s2k'] == 'iterated' else None)
             if not b['esk'] and len(recips) == 1:
@@ -235,7 +240,7 @@ def eval_backward(case, rec):
             else:
                 dec = keypool.pgpy_key(enckit.recipient_cert(kids, secret=True)).decrypt(m2)
         except Exception as e:   # noqa
-            cause = recip_kinds([r])[0] + '/container%d' % b['container']
+            cause = ('hidden-recipient' if b.get('anon') and r['t'] == 'key' else recip_kinds([r])[0]) + '/container%d' % b['container']
             rec.finding('bwd/pgpy-decrypt', cause, case, '%s: %r' % (who, e))
             continue
         try:
@@ -324,7 +329,7 @@ def matrix(arg):
                 case = {'dir': d, 'msg': {'body': (b'covering matrix body %d ' % i * 3).hex(), 'fmt': 'b', 'sensitive': False, 'comp': i % 4,
                                         'signers': ['ed25519-1'] if i % 3 == 0 else [], 'peek': i % 6 == 0},
                         'cipher': cipher, 'recips': [r], 'armored': bool(i % 2), 'supplied': bool(i % 3 == 0),
-                        'bwd': {'container': 18 if i % 5 else 9, 'esk': bool(i % 2), 'skc': i, 'foreign': [None, 100, None, 25][i % 4], 's2k': 'iterated' if i % 3 else 'salted', 'count': 16 + i % 50,
+                        'bwd': {'container': 18 if i % 5 else 9, 'esk': bool(i % 2), 'skc': i, 'foreign': [None, 100, None, 25][i % 4], 'anon': i % 7 == 3, 's2k': 'iterated' if i % 3 else 'salted', 'count': 16 + i % 50,
                                 'hdr': ['new', 'old', 'partial', 'new5', 'indeterminate'][i % 5], 'fname': ['', 'f.txt', 'ünï.txt'][i % 3], 't': 1234567890}}
                 evaluate(case, rec)
                 if d == 'fwd' and i % 4 == 1:
